@@ -71,7 +71,7 @@ EventOK(e) ==
 
 Init == l = 2
 Step == /\ l <= Len(Rec) /\ l' = l + 1
-        /\ "panic" \notin DOMAIN Rec[l]
+        /\ "panic" \notin DOMAIN Rec[l] /\ "inexact" \notin DOMAIN Rec[l]
         /\ EventOK(Rec[l])
 Spec == Init /\ [][Step]_l
 Accepted ==
